@@ -870,6 +870,11 @@ class ExprMixin:
         if isinstance(t, TTuple):
             yield st, z3.Or(*[py_eq(it, a) for it in tuple_items(cont)])
             return
+        if isinstance(t, TNone):
+            self.raise_(st, "TypeError")
+            if self.spec:
+                yield st, z3.BoolVal(False)
+            return
         if isinstance(t, TOpaque) or isinstance(a.t, TOpaque):
             self.note_assumed(f"membership test involving an opaque value: {ast.unparse(node)[:60]}")
             self.opq_may_raise(st, "membership test on a value of unknown type")
